@@ -787,6 +787,13 @@ impl jsonrpc::client::Transport for NodeTransport {
                     }
                 }
             }
+            "getblockcount" => {
+                if !reachable {
+                    Err(jsonrpc::Error::Transport(Box::new(TransportDown)))
+                } else {
+                    Ok(ok(serde_json::json!(st.height())))
+                }
+            }
             other => {
                 if !reachable {
                     Err(jsonrpc::Error::Transport(Box::new(TransportDown)))
